@@ -505,7 +505,7 @@ func reactorRaceFreeze(rounds int) string {
 		}
 		// a consumer reads whatever the reactor still delivers
 		got := map[string]bool{}
-		deadline := time.After(300 * time.Millisecond)
+		deadline := time.After(3 * time.Second)
 	drain:
 		for {
 			select {
